@@ -35,10 +35,13 @@ def gen_case(seed, tier="quick"):
             vals = [int(round(v)) or 1 for v in vals]
         cols[g] = vals
     how = rng.choice(("cols", "rows", "cls", "view", "dtobj")) if (len(shape) == 1 and n > 0) else "cols"
+    order = list(range(len(gn)))
+    if how != "cols" and rng.random() < 0.3:
+        rng.shuffle(order)       # a structured dtype may list its fields in any order
     nsteps = rng.choice((1, 2, 3, 5, 8, 12)) if tier == "quick" else rng.choice((3, 6, 12, 20))
     steps = []
     kinds = ["slice", "slice", "mask", "intidx", "reshape", "transpose", "viewcls", "viewnd", "copy", "deepcopy", "pickle",
-             "write_col", "write_elem", "write_rows", "flavor", "coordview", "asarray", "element", "objarray", "newaxis", "ravel", "int", "int", "ellipsis", "ellipsis", "copyF", "swapaxes", "dimcast", "dimcast"]
+             "write_col", "write_elem", "write_rows", "flavor", "coordview", "asarray", "element", "objarray", "newaxis", "ravel", "int", "int", "ellipsis", "ellipsis", "copyF", "swapaxes", "dimcast", "dimcast", "tupidx", "tupidx", "iterate", "boollist", "reshapeF"]
     for _ in range(nsteps):
         k = rng.choice(kinds)
         st = {"s": k, "src": rng.randrange(1 << 16), "r": [rng.randrange(1 << 16) for _ in range(4)]}
@@ -46,7 +49,7 @@ def gen_case(seed, tier="quick"):
             st["vals"] = [round(rng.uniform(-9, 9), 3) for _ in range(8)]
         steps.append(st)
     return {"kind": "deriv19", "seed": seed, "sys": list(sys_), "mom": mom, "names": names, "gnames": gn, "shape": shape, "dtype": dt,
-            "cols": cols, "how": how, "steps": steps, "fresh": rng.random() < (0.1 if tier == "thorough" else 0.004)}
+            "cols": cols, "how": how, "order": order, "steps": steps, "fresh": rng.random() < (0.1 if tier == "thorough" else 0.004)}
 
 
 def _generic(names):
@@ -75,7 +78,8 @@ def _plain(vector, case):
     gn = case["gnames"]
     shape = case["shape"]
     dt = case["dtype"]
-    t = numpy.zeros(shape, dtype=[(g, dt) for g in gn])
+    order = case.get("order") or list(range(len(gn)))
+    t = numpy.zeros(shape, dtype=[(gn[q], dt) for q in order])
     for g in gn:
         t[g] = numpy.array(case["cols"][g], dtype=dt).reshape(shape)
     return t
@@ -89,8 +93,9 @@ def _construct(vector, case):
     n = len(case["cols"][gn[0]])
     if how == "cols":
         return vector.array({nm: numpy.array(case["cols"][g], dtype=dt).reshape(shape) for nm, g in zip(names, gn)})
-    rows = [tuple(case["cols"][g][i] for g in gn) for i in range(n)]
-    dtl = [(nm, dt) for nm in names]
+    order = case.get("order") or list(range(len(gn)))
+    rows = [tuple(case["cols"][gn[q]][i] for q in order) for i in range(n)]
+    dtl = [(names[q], dt) for q in order]
     cls = getattr(vector, f"{'Momentum' if mom else 'Vector'}Numpy{dim}D")
     if how == "rows":
         return vector.array(rows, dtype=dtl)
@@ -111,18 +116,20 @@ def check_array(vector, L, i, st, viol, case, deep=True):
     gn_all = case["gnames"]
     dim = L.dim or len(gn_all)
     gn = gn_all[:dim]
+    order = case.get("order") or list(range(len(gn_all)))
+    fields = tuple(gn_all[q] for q in order)     # the dtype's own field order
     want_cls = getattr(vector, f"{'Momentum' if L.mom else 'Vector'}Numpy{dim}D")
     if type(a) is not want_cls:
         viol.append(_viol("array-class", i, st, f"{type(a).__name__} expected {want_cls.__name__} ({L.origin})"))
         return False
     real_dt = numpy.ndarray.dtype.__get__(a)
-    if _generic(real_dt.names) != tuple(gn_all):
-        viol.append(_viol("dtype-names", i, st, f"{real_dt.names} expected {tuple(gn_all)} ({L.origin})"))
+    if _generic(real_dt.names) != fields:
+        viol.append(_viol("dtype-names", i, st, f"{real_dt.names} expected {fields} ({L.origin})"))
         return False
     if a.shape != t.shape:
         viol.append(_viol("shape", i, st, f"{a.shape} expected {t.shape} ({L.origin})"))
         return False
-    if a.view(numpy.ndarray).tobytes() != t.tobytes() or [real_dt[q] for q in range(len(gn_all))] != [t.dtype[g] for g in gn_all]:
+    if a.view(numpy.ndarray).tobytes() != t.tobytes() or [real_dt[q] for q in range(len(fields))] != [t.dtype[g] for g in fields]:
         viol.append(_viol("values", i, st, f"{a.view(numpy.ndarray)!r} expected {t!r} ({L.origin})"))
         return False
     # coordinate classes re-derived on this view
@@ -179,6 +186,26 @@ def check_array(vector, L, i, st, viol, case, deep=True):
     return True
 
 
+def _check_element(vector, L, el, rec, i, st, viol, case, origin):
+    gn_all = case["gnames"]
+    dim = L.dim or len(gn_all)
+    gn = gn_all[:dim]
+    want_obj = getattr(vector, f"{'Momentum' if L.mom else 'Vector'}Object{dim}D")
+    if type(el) is not want_obj:
+        viol.append(_viol("element-class", i, st, f"{origin} is {type(el).__name__} expected {want_obj.__name__}"))
+        return
+    groups = [("azimuthal", gn[:2])] + ([("longitudinal", gn[2:3])] if dim >= 3 else []) + ([("temporal", gn[3:4])] if dim >= 4 else [])
+    for gname, cn in groups:
+        c = getattr(el, gname)
+        wantc = {"azimuthal": "AzimuthalObject", "longitudinal": "LongitudinalObject", "temporal": "TemporalObject"}[gname] + SUF[cn[0]]
+        if type(c).__name__ != wantc:
+            viol.append(_viol("element-coordinate-class", i, st, f"{origin}.{gname} is {type(c).__name__} expected {wantc}"))
+            continue
+        for q, g in enumerate(cn):
+            if float(c[q]) != float(rec[g]) and not (float(c[q]) != float(c[q]) and float(rec[g]) != float(rec[g])):
+                viol.append(_viol("element-values", i, st, f"{origin}.{g} = {c[q]!r} expected {rec[g]!r}"))
+
+
 def run_case(case, vector):
     import copy
     import pickle
@@ -212,6 +239,10 @@ def run_case(case, vector):
             viol.append(_viol("derivation-raised", i, st, f"{origin}: {type(e).__name__}: {e}"))
             return None
         nt = ft(L.twin)
+        if isinstance(nt, numpy.void):
+            # the plain twin yields one record: the vector array must yield the corresponding vector *object*
+            _check_element(vector, L, na, nt, i, st, viol, case, origin)
+            return None
         if not isinstance(na, numpy.ndarray):
             viol.append(_viol("array-class", i, st, f"{origin}: got {type(na).__name__}, the plain-numpy model gives an array of shape {getattr(nt, 'shape', None)}"))
             return None
@@ -255,6 +286,52 @@ def run_case(case, vector):
                 check_array(vector, L, i, st, viol, case)
                 continue
             new = derive(L, lambda x: x[ii], lambda x: x[ii], origin=f"int[{ii}]")
+        elif k == "tupidx":
+            # tuples mixing integers (Python, numpy.int64, numpy.uint8, negative), slices, Ellipsis and newaxis
+            if a.ndim == 0 or a.size == 0:
+                new = derive(L, lambda x: x[()], lambda x: x[()], origin="[()]")
+            else:
+                parts = []
+                for q, sdim in enumerate(a.shape):
+                    w = r[q % 4] % 5
+                    if w == 0:
+                        parts.append(slice(None))
+                    elif w == 1:
+                        parts.append(int(r[(q + 1) % 4] % sdim) - sdim)
+                    elif w == 2:
+                        parts.append(numpy.int64(r[(q + 2) % 4] % sdim))
+                    elif w == 3:
+                        parts.append(numpy.uint8(r[(q + 3) % 4] % sdim))
+                    else:
+                        parts.append(slice(r[q % 4] % sdim, None, 1 + r[(q + 1) % 4] % 2))
+                if r[3] % 4 == 0:
+                    parts.insert(r[2] % (len(parts) + 1), None)
+                elif r[3] % 4 == 1 and len(parts) > 1:
+                    parts = parts[:1] + [Ellipsis]
+                idx_t = tuple(parts)
+                new = derive(L, lambda x: x[idx_t], lambda x: x[idx_t], origin=f"[{idx_t}]")
+        elif k == "iterate":
+            if a.ndim != 1 or a.shape[0] == 0:
+                continue
+            try:
+                els = [e for e in a]
+            except Exception as e:
+                viol.append(_viol("iteration-raised", i, st, f"{type(e).__name__}: {e}"))
+                continue
+            if len(els) != a.shape[0]:
+                viol.append(_viol("iteration-length", i, st, f"{len(els)} expected {a.shape[0]}"))
+            for q, e in enumerate(els):
+                _check_element(vector, L, e, t[q], i, st, viol, case, f"iter[{q}]")
+            continue
+        elif k == "boollist":
+            if a.ndim == 0 or a.shape[0] == 0:
+                continue
+            ml = [bool((r[0] >> q) & 1) for q in range(a.shape[0])]
+            new = derive(L, lambda x: x[ml], lambda x: x[ml], origin="[list of bool]")
+        elif k == "reshapeF":
+            if a.ndim < 2:
+                continue
+            new = derive(L, lambda x: x.reshape(-1, order="F"), lambda x: x.reshape(-1, order="F"), origin="reshape(-1, order=F)")
         elif k == "ellipsis":
             # x[...] and x[i, ...] are views (0-d ones included): still arrays of the same class
             if a.ndim >= 1 and a.shape[0] and r[0] % 2:
@@ -357,7 +434,8 @@ def run_case(case, vector):
                     for q, x in enumerate(gn):
                         rows[x] = numpy.resize(numpy.array(vals[q:] + vals[:q], dtype=t.dtype[x]), rows.shape)
                     a[lo:] = rows
-                    t[lo:] = rows
+                    for x in gn:
+                        t[x][lo:] = rows[x]    # vector assigns rows by field *name* (plain numpy would go by position)
             except Exception as e:
                 viol.append(_viol("write-raised", i, dict(st, what=nm), f"{k} through {nm!r}: {type(e).__name__}: {e}"))
                 continue
@@ -380,7 +458,7 @@ def run_case(case, vector):
             continue
         elif k == "asarray":
             p = numpy.asarray(a)
-            if type(p) is not numpy.ndarray or _generic(p.dtype.names) != tuple(gn) or p.tobytes() != t.tobytes() or p.shape != t.shape:
+            if type(p) is not numpy.ndarray or _generic(p.dtype.names) != _generic(t.dtype.names) or p.tobytes() != t.tobytes() or p.shape != t.shape:
                 viol.append(_viol("asarray", i, st, f"{p!r} expected plain {t!r}"))
             q = numpy.asanyarray(a)
             if type(q) is not type(a) or q.view(numpy.ndarray).tobytes() != t.tobytes():
